@@ -42,8 +42,8 @@ def slices(ctx):
     if q:
         s["poly-depth2"] = (dict(FULL, Quarters=[1, 2], Shifts=[(1, 0), (-2, 1)], Factors=[(-1, 1), (2, 1), (-1, -2)], Origins=[(0, 0)],
                                  Boxes=[B_OVER, B_ADJ], MaxBoxes=2, MaxOps=2, PolyOps=pa.POLY_OPS, DevOps=[]), True)
-        s["setops-depth3"] = (dict(MINI, Boxes=[B_OVER, B_ADJ], MaxBoxes=2, MaxOps=3, PolyOps=["setop"], DevOps=[]), True)
-        s["devices-depth3"] = (dict(MINI, Boxes=[B_BIG, B_IN], MaxBoxes=2, MaxOps=3, PolyOps=["translate", "poke"], DevOps=pa.DEV_OPS), True)
+        s["setops-depth3"] = (dict(MINI, Boxes=[B_OVER, B_ADJ], MinBoxes=2, MaxBoxes=2, MaxOps=3, Chained=True, PolyOps=["setop"], DevOps=[]), True)
+        s["devices-depth3"] = (dict(MINI, Boxes=[B_BIG, B_IN], MinBoxes=2, MaxBoxes=2, MaxOps=3, Chained=True, PolyOps=["translate", "poke"], DevOps=pa.DEV_OPS), True)
     else:
         s["poly-depth2"] = (dict(FULL, Boxes=[B_OVER, B_ADJ, B_BIG], MaxBoxes=2, MaxOps=2, PolyOps=pa.POLY_OPS, DevOps=[]), True)
         s["setops-depth3"] = (dict(MINI, Boxes=[B_OVER, B_ADJ, B_BIG], MaxBoxes=2, MaxOps=3, PolyOps=["setop"], DevOps=[]), True)
@@ -117,7 +117,7 @@ def run(ctx):
     ctx.cov["exhaustive"] = True
     exported = [(n, cs) for n, cs in done if cs is not None]
     rnd = random.Random(ctx.seed)
-    cap = 2500 if ctx.quick else 40000
+    cap = 2000 if ctx.quick else 40000
     chains, origin = [], []
     ctx.cov["behaviours_exported"] = {}
     for name, cs in exported:
